@@ -135,8 +135,19 @@ func (fr *Frame) execInstr(ins ssa.Instruction, st *State) error {
 	case *ssa.RunDefers:
 		return fr.runDefers(st, false)
 	case *ssa.Go:
-		vc.note("go statement: the new goroutine's effects are not part of this VC")
-		// arguments escape; concurrent effects are not modelled sequentially
+		vc.note("go statement: the new goroutine's effects are not part of this VC (its body is verified separately where it has a contract)")
+		sp := vc.get(st, "ghost.spawned", "Int")
+		vc.set(st, "ghost.spawned", "Int", iAdd(sp, "1"))
+		var gargs []Value
+		for _, a := range t.Call.Args {
+			gargs = append(gargs, fr.val(a))
+		}
+		if mc, ok := t.Call.Value.(*ssa.MakeClosure); ok {
+			for _, b := range mc.Bindings {
+				gargs = append(gargs, fr.val(b))
+			}
+		}
+		fr.escapeArgs(gargs)
 		return nil
 	case *ssa.MakeClosure:
 		id := vc.fresh("closure."+t.Fn.Name(), "Int")
